@@ -140,7 +140,7 @@ func dialNet(network, addr string) (*Sess, error) {
 		return nil, err
 	}
 	s := &Sess{c: c, r: bufio.NewReaderSize(c, 1<<16)}
-	g, err := s.line(5 * time.Second)
+	g, err := s.line(20 * time.Second)
 	if err != nil {
 		c.Close()
 		return nil, fmt.Errorf("no greeting: %w", err)
